@@ -508,6 +508,45 @@ def kernel_tensor_kwargs_case(pre, post):
     return None
 
 
+def two_cells_one_layer_case():
+    """two cells of ONE layer (two connections into one neuron group) on one delay-adjusted trainer: each cell's rule reads
+    the spike times of ITS OWN connection - a cell whose presynaptic side has not spiked yet is not changed, whatever the
+    other connection does"""
+    from inferno.neural import Biclique
+    from inferno.learn import DelayAdjustedSTDP, DelayAdjustedSTDPD
+
+    fails, n = [], 0
+    for cls, par in ((DelayAdjustedSTDP, "weight"), (DelayAdjustedSTDPD, "delay")):
+        n += 1
+        conns = {}
+        for name in ("ca", "cb"):
+            cn = LinearDense((3,), (2,), 1.0, synapse=DeltaCurrent.partialconstructor(1.0), delay=2.0, batch_size=1)
+            cn.updater = cn.defaultupdater()
+            cn.weight = torch.full((2, 3), 0.5)
+            cn.delay = torch.tensor([[0.0, 2.0, 0.5], [1.5, 2.0, 1.0]])
+            conns[name] = cn
+        neuron = ExactNeuron((2,), 1.0, rest_v=-60.0, thresh_v=-45.0, batch_size=1)
+        lay = Biclique([("ca", conns["ca"]), ("cb", conns["cb"])], [("n", neuron)])
+        tr = cls(0.5, -0.4, 15.0, 11.0, batch_reduction=torch.sum)
+        tr.register_cell("a", lay.cells.ca.n)
+        tr.register_cell("b", lay.cells.cb.n)
+        before = getattr(conns["cb"], par).clone()
+        try:
+            with torch.no_grad():
+                for t in range(8):
+                    post = torch.tensor([[t % 3 == 2, t % 4 == 3]])
+                    lay({"ca": (torch.tensor([[1.0, float(t % 2), 0.0]]),), "cb": (torch.zeros(1, 3),)}, neuron_kwargs={"n": {"override": post}})
+                    tr()
+                conns["cb"].update()
+        except Exception as e:  # noqa: BLE001
+            fails.append({"what": f"C18/{cls.__name__}/two_cells_one_layer_exception", "input": dict(trainer=cls.__name__), "expected": "runs", "actual": f"{type(e).__name__}: {e}"})
+            continue
+        after = getattr(conns["cb"], par)
+        if not torch.equal(before, after):
+            fails.append({"what": f"C18/{cls.__name__}/silent_connection_changed_by_the_other_cells_spike_times", "input": dict(trainer=cls.__name__, scenario="Biclique ca, cb -> n; only ca receives presynaptic spikes"), "expected": before.tolist(), "actual": after.tolist()})
+    return fails, n
+
+
 def sweep_c18(tier, seed):
     failures, cases = [], 0
     rnd = random.Random(seed + 1)
@@ -543,6 +582,9 @@ def sweep_c18(tier, seed):
                 f = per_cell_equivalence(cls, names, vals, pre, post, stp, maxdelay=2.0, param=par)
                 if f is not None and not any(x["what"] == f["what"] for x in failures):
                     failures.append(f)
+    f2, n2 = two_cells_one_layer_case()
+    failures.extend(f2)
+    cases += n2
     fd, nd = trainer_defaults(only=("DelayAdjustedSTDP", "DelayAdjustedSTDPD", "DelayAdjustedMSTDP", "DelayAdjustedMSTDPD", "KernelSTDP", "DelayAdjustedKernelSTDP", "DelayAdjustedKernelSTDPD"))
     failures.extend(fd)
     cases += nd
